@@ -25,7 +25,7 @@ EPS = np.finfo(float).eps
 
 def plan(tier):
     return {"shards": 8 if tier == "quick" else 16, "budget_s": 25 if tier == "quick" else 300,
-            "required_counters": ["identity_rows", "inside_rows", "outside_rows", "band_rows", "attr_checks",
+            "required_counters": ["identity_rows", "inside_rows", "outside_rows", "band_rows", "attr_checks", "attr_fault_checks", "attr_fault_raised:warning-as-error", "attr_fault_raised:failpoint",
                                   "inout_forced"]}
 
 
@@ -220,8 +220,91 @@ def attr_checks(ctx):
                                    "rel": float(np.max(np.abs(pol - mu0 * mag)) / np.max(np.abs(pol)))})
 
 
+def attr_fault_checks(ctx):
+    """the attribute relation also holds when an assignment FAILS part-way: a weak magnetization (valid, but
+    warned about) with warnings escalated to errors, and an injected fault at every call line of the two
+    setters.  Afterwards polarization and magnetization are both None or obey J = mu_0 M."""
+    import warnings
+
+    import magpylib as magpy
+    from magpylib._src.obj_classes.class_BaseExcitations import BaseMagnet
+    from vfw import probes
+
+    rng = ctx.rng
+    mu0 = magpy.mu_0
+    pr = ctx.safety
+    points = [("warning-as-error", None, None)]
+    for which in ("magnetization", "polarization"):
+        f = getattr(BaseMagnet, which).fset
+        try:
+            for line, text in probes.call_lines(f).items():
+                points.append(("failpoint", f, line))
+        except Exception:
+            ctx.count("probe_unattached:setter_" + which)
+    for cls in objs.MAGNETS + objs.SHEETS:
+        for mode, f, line in points:
+            for which in ("magnetization", "polarization"):
+                if f is not None and f is not getattr(BaseMagnet, which).fset:
+                    continue
+                for start in ("set", "unset"):
+                    s = objs.rand_source(rng, cls)
+                    if start == "unset":
+                        s = {k: x for k, x in s.items() if k not in ("polarization", "magnetization")}
+                    v = np.array(objs.rand_vec(rng)) * (10.0 ** rng.uniform(0, 3) if which == "magnetization"
+                                                        else 10.0 ** rng.uniform(-6, 1))
+                    case = {"cls": cls, "which": which, "mode": mode, "line": line, "start": start, "value": v.tolist()}
+                    try:
+                        with quiet():
+                            o = objs.build(s)
+                    except Exception as e:
+                        ctx.inconclusive_case("setup failed " + repr(e)[:100], case)
+                        continue
+                    raised = None
+                    cb = None
+                    if f is not None:
+                        def cb(fr):
+                            raise probes.InjectedFault(f"{which}.setter:{line}")
+                        code = f.__code__
+                        pr.line_cbs.setdefault((code, line), []).append(cb)
+                        pr.codes.add(code)
+                        pr._apply(code)
+                    try:
+                        with warnings.catch_warnings():
+                            warnings.simplefilter("error" if mode == "warning-as-error" else "ignore")
+                            setattr(o, which, v.tolist())
+                    except (Warning, probes.InjectedFault) as e:
+                        raised = type(e).__name__
+                    except Exception as e:
+                        ctx.violation({"kind": "attr-exception", "cls": cls}, case, exc_info(e))
+                        continue
+                    finally:
+                        if cb is not None:
+                            pr.line_cbs[(code, line)].remove(cb)
+                            if not pr.line_cbs[(code, line)]:
+                                del pr.line_cbs[(code, line)]
+                            if not any(c is code for c, _ in pr.line_cbs):
+                                pr.codes.discard(code)
+                            pr._apply(code)
+                    ctx.count("attr_fault_checks")
+                    if raised:
+                        ctx.count("attr_fault_raised:" + mode)
+                    ctx.evaluated(case, nontrivial=raised is not None)
+                    pol, mag = o.polarization, o.magnetization
+                    if pol is None and mag is None:
+                        continue
+                    bad = None
+                    if pol is None or mag is None:
+                        bad = "one of polarization/magnetization is None, the other is set"
+                    elif np.max(np.abs(pol - mu0 * mag)) > 1e-9 * np.max(np.abs(pol)):   # legacy constant: attr_checks
+                        bad = "polarization != mu_0*magnetization"
+                    if bad:
+                        ctx.violation({"kind": "attrs-inconsistent-after-failed-assignment", "mode": mode, "which": which},
+                                      case, {"pol": pol, "mag": mag, "raised": raised, "what": bad})
+
+
 def run_shard(ctx):
     attr_checks(ctx)
+    attr_fault_checks(ctx)
     while not ctx.expired():
         check_case(ctx, gen_case(ctx.rng))
         if ctx.rng.random() < 0.02:
@@ -229,7 +312,10 @@ def run_shard(ctx):
 
 
 def replay(ctx, case):
-    if "which" in case:
+    if "mode" in case:
+        ctx.rng = np.random.default_rng(0)
+        attr_fault_checks(ctx)
+    elif "which" in case:
         ctx.rng = np.random.default_rng(0)
         attr_checks(ctx)
     else:
